@@ -14,7 +14,7 @@ from vlib import core
 import props.C04 as base
 
 FAMILY = "serLegacy"
-FLAGS = {"legacy_cdata_cr_referenced": False, "legacy_detects_lone_low_surrogate": False}
+FLAGS = {"legacy_cdata_cr_referenced": False, "legacy_detects_lone_low_surrogate": False, "legacy_checks_comment_pi_names": False}
 LEGACY_ENCODINGS = ["UTF-8", "UTF-16", "ISO-8859-1", "US-ASCII", "UTF-32"]
 
 
@@ -110,7 +110,8 @@ def known_class(enc, ver, evs, why):
     v11 = base.split_ver(ver)[0] == "1.1"
     kinds = set(k for k, _ in why)
     if kinds & {"comment", "pi", "name"}:
-        return "K-new-8"          # no check at all in comments, PIs and names
+        # no check at all in comments, PIs and names -- unless the source has fixes/C04/12-K-new-8
+        return None if FLAGS["legacy_checks_comment_pi_names"] else "K-new-8"
     if any(w == "surrogate" for _, w in why):
         return None if FLAGS["legacy_detects_lone_low_surrogate"] else "K-new-4"
     cdata_units = [u for e in evs if e[0] == "C" for u in e[1]]
@@ -165,7 +166,7 @@ def gen_class_cases(ctx, n_random):
 
 # ---------------------------------------------------------------------------------------------
 
-ERRMAP = {"1": "SAXException", "3": "SAXException"}
+ERRMAP = {"1": "SAXException", "3": "SAXException", "4": "XSLException"}
 
 
 def evaluate(ctx, cases, impl, model, stats):
